@@ -2,6 +2,7 @@ import CogentModel.Json
 import CogentModel.Model.Calculator
 import CogentModel.Model.Controller
 import CogentModel.Model.ControllerLf
+import CogentModel.Model.ControllerFail
 import CogentModel.Model.ParamRules
 import Driver.C07Rules2
 open CogentModel CogentModel.Calc
@@ -165,6 +166,29 @@ def rulesRun (d : Rules.Defn) : Rules.St → List Rules.RuleArgs → List J
     | .error e => J.obj [("err", .str e)] :: rulesRun d s rs
     | .ok s' => let s'' := rulesFreeze d s'; rulesSnap d s'' :: rulesRun d s'' rs
 
+/-! ### controller with definitions whose update() may raise -/
+
+def parseDefnF (j : J) : Except String (CtlF.Defn Int) := do
+  match ← (← j.get "k").toStr with
+  | "leaf" => pure .leaf
+  | "derived" => do
+    let args ← (← j.get "args").toListOf J.toNat
+    let salt ← (← j.get "salt").toInt
+    let mult ← (← j.get "mult").toInt
+    let rmod ← (← j.get "rmod").toInt
+    let rres ← (← j.get "rres").toInt
+    pure (.derived args (hashCalc salt mult rmod rres))
+  | s => throw s!"bad defn kind {s}"
+
+def ctlfSnap (n : Nat) (s : Ctl.St Int) (ok : Bool) : J :=
+  J.obj [("values", J.ofList J.num ((List.range n).map s.values)),
+         ("changed", J.ofList J.ofNat ((List.range n).filter (fun k => s.changed.contains k))),
+         ("suspended", J.bool s.suspended), ("depth", J.ofNat s.stack.length), ("raised", J.bool (!ok))]
+
+def ctlfRun (g : CtlF.Graph Int) : Ctl.St Int → List (Ctl.Op Int) → List J
+  | _, [] => []
+  | s, o :: os => let r := CtlF.step g s o; ctlfSnap g.length r.1 r.2 :: ctlfRun g r.1 os
+
 /-! ### likelihood-function level ops compiled to controller ops -/
 
 def opTag : Ctl.Op Int → J
@@ -191,6 +215,12 @@ def parseSimple (j : J) : Except String (Ctl.Simple Int) := do
 
 def handle (cmd : String) (j : J) : Except String J :=
   match cmd with
+  | "ctlf" => do
+    let g ← (← j.get "defns").toListOf parseDefnF
+    let s0 ← (← j.get "settings").toListOf J.toInt
+    let ops ← (← j.get "ops").toListOf parseCtlOp
+    let r0 := CtlF.updateIntermediate g (CtlF.init0 g (fun i => s0.getD i 0))
+    pure (J.obj [("init", ctlfSnap g.length r0.1 r0.2), ("steps", J.arr (ctlfRun g r0.1 ops))])
   | "rules2" => handleRules2 j
   | "compile" => do
     let ops ← match optField j "block" with
